@@ -91,6 +91,7 @@ class Construct(Suite):
     name = "construct"
     imports = ["Scheme", "Judge.JC19"]
     judge = "judge_construct"
+    ctype = "pyval * result scheme_err scheme"
     show = "show_construct"
 
     def gen(self, tier, rng):
@@ -169,6 +170,7 @@ class Mul(Suite):
     name = "mul"
     imports = ["Scheme", "Judge.JC19"]
     judge = "judge_mul"
+    ctype = "scheme * pyval * result scheme_err scheme"
     show = "show_mul"
 
     def gen(self, tier, rng):
